@@ -54,6 +54,32 @@ theorem c14_subject_check_option (now : Int) (st : AsrtStorage) (iss : String) (
     (GenC14.NewJWTProfileVerifier now st iss m o [GenC14.SubjectCheck now f]).flat =
       { (GenC14.NewJWTProfileVerifier now st iss m o []).flat with CheckSubject := some f } := rfl
 
+/-- (deep 4) `op.NewJWTProfileVerifierKeySet(keySet, issuer, maxAge, offset)`: a verifier that checks every assertion against the
+    caller's key set - whatever issuer it names - with the given issuer and window and the default subject check -/
+theorem c14_keyset_verifier (now : Int) (ks : KeySet) (iss : String) (m o : Int) (hk : ks.kind ≠ .nilSet) :
+    (GenC14.NewJWTProfileVerifierKeySet now ks iss m o []).flat.Issuer = iss ∧
+    (GenC14.NewJWTProfileVerifierKeySet now ks iss m o []).flat.MaxAgeIAT = m ∧
+    (GenC14.NewJWTProfileVerifierKeySet now ks iss m o []).flat.Offset = o ∧
+    (GenC14.NewJWTProfileVerifierKeySet now ks iss m o []).flat.CheckSubject = some (SubjectIsIssuer now) ∧
+    ∀ id, assertionKeys (GenC14.NewJWTProfileVerifierKeySet now ks iss m o []).flat id = ks := by
+  refine ⟨rfl, rfl, rfl, rfl, ?_⟩
+  intro id
+  have : (GenC14.NewJWTProfileVerifierKeySet now ks iss m o []).flat.keySet = ks := rfl
+  unfold assertionKeys
+  rw [this]
+  have hn : Go.isNil ks = false := by
+    simp only [Go.isNil, Nilable.isNil]
+    cases hkk : ks.kind <;> simp_all
+  simp [hn]
+
+/-- … so what such a verifier accepts is signed by a key of THAT key set (C02's acceptance statement), and nothing else decides -/
+theorem c14_keyset_verifier_sound {now : Int} {ks : KeySet} {iss : String} {m o : Int} {t : Token} {c : Claims} (hk : ks.kind ≠ .nilSet)
+    (h : VerifyJWTAssertion now t (GenC14.NewJWTProfileVerifierKeySet now ks iss m o []).flat = .ok c) :
+    C02.acceptedOK [] ks t c = none := by
+  obtain ⟨p, c0, hp, _, _, _, _, hsig⟩ := verifyJWTAssertion_ok.1 h
+  rw [(c14_keyset_verifier now ks iss m o hk).2.2.2.2 c0.iss] at hsig
+  exact (C02.parse_and_signature_sound hp hsig).1
+
 /-! ### composition with `c14_assertion_sound` -/
 
 /-- the explicit default subject check is the constructor default -/
@@ -108,6 +134,127 @@ theorem c14_endpoint_monitor {now : Int} {reqIssuer : String} {o : AsrtProvider}
     endpointSound o.storage.keyRegistry { reqIssuer := reqIssuer, assertion := t } now { accepted := true, identity := some c.iss } = none := by
   obtain ⟨c0, hm, hi, _, _, hs⟩ := c14_endpoint_token_sound h
   simp [endpointSound, hm, hs, hi]
+
+/-! ### (deep 4) WHICH verifier: interface dispatch, and every subject check
+
+Every consumer obtains the verifier through an interface method (`exchanger.JWTProfileVerifier(ctx)`).  The dynamic type is
+`*op.Provider` (its getter is regenerated above) or an OP that embeds it and implements the method itself - e.g. with
+`op.SubjectCheck(f)`, the one option the constructor knows.  `verifierAt` is the verifier a request addressed to `reqIssuer` is
+judged with in either case; `ProviderSettings … check` says that it carries the provider's settings for the addressed issuer with
+the default subject check (`check = none`) or the custom one `f` (`check = some f`, ANY function). -/
+
+/-- the verifier a request addressed to `reqIssuer` is judged with (flat reading of what the interface method hands out) -/
+abbrev verifierAt (now : Int) (reqIssuer : String) (p : AsrtProvider) : JWTProfileVerifier :=
+  (Hand.asrtJWTProfileVerifier (GenC14.ProviderJWTProfileVerifier now) reqIssuer p).flat
+
+theorem verifierAt_stock {now : Int} {reqIssuer : String} {p : AsrtProvider} (h : p.customVerifier = none) :
+    verifierAt now reqIssuer p = (GenC14.ProviderJWTProfileVerifier now reqIssuer p).flat := by
+  simp [verifierAt, Hand.asrtJWTProfileVerifier, h]
+
+theorem verifierAt_custom {now : Int} {reqIssuer : String} {p : AsrtProvider} {g : String → AsrtVerifierGo} (h : p.customVerifier = some g) :
+    verifierAt now reqIssuer p = (g reqIssuer).flat := by
+  simp [verifierAt, Hand.asrtJWTProfileVerifier, h]
+
+/-- the verifier carries the provider's settings for the addressed issuer: expected audience = the issuer the request is addressed
+    to, one hour, one second, the storage's key registry, no key set of its own; subject check: the default (`check = none`) or the
+    configured one (`check = some f`) -/
+structure ProviderSettings (now : Int) (v : JWTProfileVerifier) (reqIssuer : String) (reg : List (String × JWK))
+    (check : Option (Claims → Go.R Unit)) : Prop where
+  issuer : v.Issuer = reqIssuer
+  maxAge : v.MaxAgeIAT = providerMaxAgeIAT
+  offset : v.Offset = providerOffset
+  storage : v.Storage = reg
+  keySet : v.keySet.kind = .nilSet
+  subject : v.CheckSubject = some (check.getD (SubjectIsIssuer now))
+
+/-- `*op.Provider` itself: the default subject check -/
+theorem settings_stock (now : Int) (reqIssuer : String) (p : AsrtProvider) (h : p.customVerifier = none) :
+    ProviderSettings now (verifierAt now reqIssuer p) reqIssuer p.storage.keyRegistry none := by
+  rw [verifierAt_stock h]
+  obtain ⟨h1, h2, h3, h4, h5, h6⟩ := c14_audience_is_request_issuer now reqIssuer p
+  exact ⟨h1, h2, h3, h4, h5, h6⟩
+
+/-- an OP whose `JWTProfileVerifier(ctx)` is `NewJWTProfileVerifier(storage, IssuerFromContext(ctx), time.Hour, time.Second,
+    SubjectCheck(f))` (regenerated constructor and option): the provider's settings with the subject check `f`, for EVERY `f` -/
+theorem settings_subject_check (now : Int) (reqIssuer : String) (p : AsrtProvider) (f : Claims → Go.R Unit)
+    (h : p.customVerifier = some fun iss => GenC14.NewJWTProfileVerifier now p.storage iss (3600 * Go.second) Go.second [GenC14.SubjectCheck now f]) :
+    ProviderSettings now (verifierAt now reqIssuer p) reqIssuer p.storage.keyRegistry (some f) := by
+  rw [verifierAt_custom h]
+  exact ⟨rfl, rfl, rfl, rfl, rfl, rfl⟩
+
+/-- what the configured check admits, as the monitor sees it (`EndpointReq.subjectCheck`) -/
+def admitsOf (check : Option (Claims → Go.R Unit)) : Option (Claims → Bool) := check.map fun f c => (f c).toOption.isSome
+
+/-- dropping the demand sub = iss only weakens `assertionOK` -/
+theorem assertionOK_weaken {i : String} {m o : Int} {s : Bool} {reg : List (String × JWK)} {t : Token} {now : Int} {c : Claims}
+    (h : assertionOK i m o s reg t now c = none) : assertionOK i m o false reg t now c = none := by
+  cases s with
+  | false => exact h
+  | true =>
+    unfold assertionOK at h ⊢
+    split at h
+    · simp at h
+    · rename_i hsig
+      simp only [Option.map_eq_none_iff, List.find?_eq_none] at h ⊢
+      intro x hx
+      simp only [claimClauses, List.mem_cons, List.mem_nil_iff, or_false] at hx
+      rcases hx with rfl | rfl | rfl | rfl | rfl | rfl
+      · exact h _ (by simp [claimClauses])
+      · exact h _ (by simp [claimClauses])
+      · exact h _ (by simp [claimClauses])
+      · exact h _ (by simp [claimClauses])
+      · exact h _ (by simp [claimClauses])
+      · simp
+
+/-- C14 (deep 4), EVERY subject check: an assertion accepted by a verifier that carries the provider's settings for `reqIssuer` is the
+    token's own claims, signed with a key the storage holds for the client named as ISSUER, addressed to `reqIssuer`, inside the
+    window; its subject equals its issuer (default check) or is one the configured check admits -/
+theorem endpoint_token_sound_any {now : Int} {reqIssuer : String} {reg : List (String × JWK)} {check : Option (Claims → Go.R Unit)}
+    {v : JWTProfileVerifier} {t : Token} {c : Claims}
+    (hs : ProviderSettings now v reqIssuer reg check) (h : VerifyJWTAssertion now t v = .ok c) :
+    ∃ c0, t.middle.bind (·.claims) = some c0 ∧ c0.iss = c.iss ∧ c0.sub = c.sub ∧ c0.aud = c.aud ∧
+      assertionOK reqIssuer providerMaxAgeIAT providerOffset check.isNone reg t now c0 = none ∧
+      (∀ f, check = some f → f c0 = .ok ()) := by
+  obtain ⟨h1, h2, h3, h4, h5, h6⟩ := hs
+  obtain ⟨p, c0, hp, _, _, _, hsub, hsig⟩ := verifyJWTAssertion_paths h5 h
+  obtain ⟨_, s, _, _, _, _, _, hc⟩ := C01.checkSignature_ok hsig
+  have hmid : t.middle.bind (·.claims) = some c0 := by
+    unfold ParseToken at hp
+    split at hp; · simp at hp
+    split at hp; · simp at hp
+    rename_i p0 hm
+    split at hp; · simp at hp
+    rename_i c1 hc1
+    simp at hp
+    simp [hm, hc1, hp.2]
+  have hsound : assertionOK reqIssuer providerMaxAgeIAT providerOffset check.isNone reg t now c = none := by
+    cases check with
+    | none =>
+      have h6' : v.CheckSubject = some (SubjectIsIssuer now) := by simpa using h6
+      rw [verify_default_subject h6'] at h
+      have := c14_assertion_sound (v := { v with CheckSubject := none }) h5 h
+      simpa [h1, h2, h3, h4] using this
+    | some f =>
+      have := assertionOK_weaken (c14_assertion_sound h5 h)
+      simpa [h1, h2, h3, h4] using this
+  subst hc
+  rw [assertionOK_sigAlg] at hsound
+  refine ⟨c0, hmid, rfl, rfl, rfl, hsound, ?_⟩
+  intro f hf
+  subst hf
+  simpa [applySubjectCheck, h6] using hsub
+
+/-- the monitor on an endpoint that honours exactly what such a verifier accepts and goes on as the assertion's ISSUER -/
+theorem endpoint_monitor_any {now : Int} {reqIssuer : String} {reg : List (String × JWK)} {check : Option (Claims → Go.R Unit)}
+    {v : JWTProfileVerifier} {t : Token} {c : Claims}
+    (hs : ProviderSettings now v reqIssuer reg check) (h : VerifyJWTAssertion now t v = .ok c) :
+    endpointSound reg { reqIssuer := reqIssuer, assertion := t, subjectCheck := admitsOf check } now { accepted := true, identity := some c.iss } = none := by
+  obtain ⟨c0, hm, hi, _, _, hso, hadm⟩ := endpoint_token_sound_any hs h
+  cases check with
+  | none => simp [endpointSound, admitsOf, hm, hi] at hso ⊢; simp [hso]
+  | some f =>
+    have := hadm f rfl
+    simp [endpointSound, admitsOf, hm, hi, this] at hso ⊢; simp [hso, Except.toOption]
 
 /-! ### the accepting direction -/
 
@@ -185,7 +332,7 @@ theorem c14_proper_assertion_accepted {now : Int} {reqIssuer : String} {o : Asrt
 
 theorem clientJWTAuth_ok {now : Int} {reqIssuer : String} {ca : AsrtAssertionParams} {p : AsrtProvider} {id : String} :
     GenC14.ClientJWTAuth now reqIssuer ca p = .ok id ↔
-      ca.ClientAssertion ≠ "" ∧ ∃ c, VerifyJWTAssertion now (p.tokenOf ca.ClientAssertion) (GenC14.ProviderJWTProfileVerifier now reqIssuer p).flat = .ok c ∧ c.iss = id := by
+      ca.ClientAssertion ≠ "" ∧ ∃ c, VerifyJWTAssertion now (p.tokenOf ca.ClientAssertion) (verifierAt now reqIssuer p) = .ok c ∧ c.iss = id := by
   unfold GenC14.ClientJWTAuth Hand.asrtVerifyJWTAssertion
   go_leaf
 
@@ -197,7 +344,7 @@ theorem checkPrivateKeyJWTClient_ok {now : Int} {id : String} {s : AsrtStorage} 
 
 theorem authorizePrivateJWTKey_ok {now : Int} {reqIssuer : String} {t : Token} {p : AsrtProvider} {cl : OPClient} :
     GenC14.AuthorizePrivateJWTKey now reqIssuer t p = .ok cl ↔
-      ∃ c, VerifyJWTAssertion now t (GenC14.ProviderJWTProfileVerifier now reqIssuer p).flat = .ok c ∧
+      ∃ c, VerifyJWTAssertion now t (verifierAt now reqIssuer p) = .ok c ∧
         p.storage.GetClientByClientID c.iss = .ok cl ∧ cl.auth = Const.AuthMethodPrivateKeyJWT := by
   unfold GenC14.AuthorizePrivateJWTKey Hand.asrtVerifyToken AsrtProvider.Storage OPClient.AuthMethod
   go_leaf
@@ -217,7 +364,7 @@ theorem parseTokenRevocationRequest_assertion {now : Int} {reqIssuer : String} {
     {tok hint id : String} (hd : p.decoder.decoded r.Form = .ok data) (ht : data.ClientAssertionType = Const.ClientAssertionTypeJWTAssertion) :
     GenC14.ParseTokenRevocationRequest now reqIssuer r p = .ok (tok, hint, id) ↔
       r.ParseForm = .ok () ∧ p.pkjwtSupported = true ∧ tok = data.Token ∧ hint = data.TokenTypeHint ∧
-      ∃ c, VerifyJWTAssertion now (p.tokenOf data.ClientAssertion) (GenC14.ProviderJWTProfileVerifier now reqIssuer p).flat = .ok c ∧ c.iss = id ∧
+      ∃ c, VerifyJWTAssertion now (p.tokenOf data.ClientAssertion) (verifierAt now reqIssuer p) = .ok c ∧ c.iss = id ∧
         GenC14.checkPrivateKeyJWTClient now id p.storage = .ok () := by
   unfold GenC14.ParseTokenRevocationRequest AsrtProvider.Decoder AsrtDecoder.Decode AsrtProvider.is_RevokerJWTProfile AsrtProvider.Storage
     AsrtProvider.AuthMethodPrivateKeyJWTSupported Hand.asrtVerifyJWTAssertion
@@ -227,7 +374,7 @@ theorem parseTokenRevocationRequest_assertion {now : Int} {reqIssuer : String} {
 theorem jwtProfile_json {now : Int} {reqIssuer : String} {rq : Go.R AsrtGrantRequest} {p : AsrtProvider} {resp : AsrtTokenResponse} :
     GenC14.JWTProfile now reqIssuer rq p = .json resp ↔
       ∃ g c granted, rq = .ok g ∧
-        VerifyJWTAssertion now (p.tokenOf g.Assertion) (GenC14.ProviderJWTProfileVerifier now reqIssuer p).flat = .ok c ∧
+        VerifyJWTAssertion now (p.tokenOf g.Assertion) (verifierAt now reqIssuer p) = .ok c ∧
         p.storage.scopePolicy c.iss g.Scope = .ok granted ∧ resp = { subject := c.sub, audience := c.aud, scopes := granted } := by
   unfold GenC14.JWTProfile Hand.asrtParseGrantRequest Hand.asrtVerifyJWTAssertion Hand.asrtCreateJWTTokenResponse AsrtProvider.Storage
     AsrtStorage.ValidateJWTProfileScopes
@@ -236,7 +383,7 @@ theorem jwtProfile_json {now : Int} {reqIssuer : String} {rq : Go.R AsrtGrantReq
 theorem legacyJWTProfile_ok {now : Int} {reqIssuer : String} {s : AsrtLegacyServer} {r : AsrtRequest AsrtGrantRequest} {resp : AsrtTokenResponse} :
     GenC14.LegacyJWTProfile now reqIssuer s r = .ok resp ↔
       ∃ c granted,
-        VerifyJWTAssertion now (s.provider.tokenOf r.Data.Assertion) (GenC14.ProviderJWTProfileVerifier now reqIssuer s.provider).flat = .ok c ∧
+        VerifyJWTAssertion now (s.provider.tokenOf r.Data.Assertion) (verifierAt now reqIssuer s.provider) = .ok c ∧
         s.provider.storage.scopePolicy c.iss r.Data.Scope = .ok granted ∧ resp = { subject := c.sub, audience := c.aud, scopes := granted } := by
   unfold GenC14.LegacyJWTProfile Hand.asrtVerifyJWTAssertion Hand.asrtCreateJWTTokenResponse AsrtProvider.Storage
     AsrtStorage.ValidateJWTProfileScopes AsrtProvider.is_JWTAuthorizationGrantExchanger Hand.NewResponse
@@ -253,19 +400,10 @@ theorem legacyAuthenticateResourceClient_assertion {now : Int} {reqIssuer : Stri
 
 /-- … so `ClientJWTAuth` authenticates its issuer at that request -/
 theorem c14_proper_assertion_authenticates {now : Int} {reqIssuer : String} {ca : AsrtAssertionParams} {p : AsrtProvider} {c : Claims} {alg : String}
-    (ha : ca.ClientAssertion ≠ "")
+    (hstock : p.customVerifier = none) (ha : ca.ClientAssertion ≠ "")
     (h : properlyMade reqIssuer providerMaxAgeIAT providerOffset p.storage.keyRegistry (p.tokenOf ca.ClientAssertion) now = some (c, alg)) :
     GenC14.ClientJWTAuth now reqIssuer ca p = .ok c.iss :=
-  clientJWTAuth_ok.2 ⟨ha, _, c14_proper_assertion_accepted h, rfl⟩
-
-/-- client authentication by assertion (introspection, device grant, device authorization; the legacy server's resource
-    endpoints): the authenticated identity is the issuer of an assertion that is sound FOR THE ADDRESSED ISSUER -/
-theorem c14_client_jwt_auth_sound {now : Int} {reqIssuer : String} {ca : AsrtAssertionParams} {p : AsrtProvider} {id : String}
-    (h : GenC14.ClientJWTAuth now reqIssuer ca p = .ok id) :
-    endpointSound p.storage.keyRegistry { reqIssuer := reqIssuer, assertion := p.tokenOf ca.ClientAssertion } now
-      { accepted := true, identity := some id } = none := by
-  obtain ⟨_, c, hc, hi⟩ := clientJWTAuth_ok.1 h
-  rw [← hi]; exact c14_endpoint_monitor hc
+  clientJWTAuth_ok.2 ⟨ha, c.SetSignatureAlgorithm alg, by rw [verifierAt_stock hstock]; exact c14_proper_assertion_accepted h, rfl⟩
 
 theorem getClient_id {s : AsrtStorage} {id : String} {c : OPClient} (h : s.GetClientByClientID id = .ok c) : c.id = id := by
   unfold AsrtStorage.GetClientByClientID Store.GetClientByClientID at h
@@ -275,89 +413,170 @@ theorem getClient_id {s : AsrtStorage} {id : String} {c : OPClient} (h : s.GetCl
     simpa using List.find?_some hf
   · simp at h
 
+/-! #### the authenticated identity is the ISSUER - for EVERY verifier the interface method may hand out (any issuer, window, key
+     source, subject check): these four statements have no hypothesis about the provider at all -/
+
+/-- C14 (deep 4): `ClientJWTAuth` answers the ISSUER of the assertion the verifier accepted - never its subject -/
+theorem c14_client_jwt_auth_identity {now : Int} {reqIssuer : String} {ca : AsrtAssertionParams} {p : AsrtProvider} {id : String}
+    (h : GenC14.ClientJWTAuth now reqIssuer ca p = .ok id) :
+    ∃ c, VerifyJWTAssertion now (p.tokenOf ca.ClientAssertion) (verifierAt now reqIssuer p) = .ok c ∧ id = c.iss := by
+  obtain ⟨_, c, hc, hi⟩ := clientJWTAuth_ok.1 h
+  exact ⟨c, hc, hi.symm⟩
+
+/-- C14 (deep 4), private_key_jwt at the token endpoint (code / refresh grants of both routers, `LegacyServer.VerifyClient`):
+    whatever verifier - hence whatever SUBJECT CHECK - is configured, the client `AuthorizePrivateJWTKey` authenticates is the
+    registration stored under the assertion's ISSUER (`cl.id = c.iss`), registered for private_key_jwt; and when the verifier takes
+    its keys from the storage (no key set of its own), the assertion is signed with a key that storage holds for exactly that
+    client and meets the verifier's audience / time conditions -/
+theorem c14_private_key_client_any_check {now : Int} {reqIssuer : String} {t : Token} {p : AsrtProvider} {cl : OPClient}
+    (h : GenC14.AuthorizePrivateJWTKey now reqIssuer t p = .ok cl) :
+    ∃ c, VerifyJWTAssertion now t (verifierAt now reqIssuer p) = .ok c ∧ cl.id = c.iss ∧
+      p.storage.GetClientByClientID c.iss = .ok cl ∧ cl.auth = Const.AuthMethodPrivateKeyJWT ∧
+      ((verifierAt now reqIssuer p).keySet.kind = .nilSet →
+        assertionOK (verifierAt now reqIssuer p).Issuer (verifierAt now reqIssuer p).MaxAgeIAT (verifierAt now reqIssuer p).Offset false
+          (verifierAt now reqIssuer p).Storage t now c = none) := by
+  obtain ⟨c, hc, hcl, hauth⟩ := authorizePrivateJWTKey_ok.1 h
+  exact ⟨c, hc, getClient_id hcl, hcl, hauth, fun hks => assertionOK_weaken (c14_assertion_sound hks hc)⟩
+
+/-- C14 (deep 4), Provider router (introspection, device authorization, device grant): the client `ClientIDFromRequest` reports for
+    a request with an assertion is the assertion's ISSUER, for every verifier -/
+theorem c14_client_id_from_request_identity {now : Int} {reqIssuer : String} {r : AsrtHttpReq} {p : AsrtProvider} {data : AsrtForm}
+    {id : String} {authd : Bool} (hd : p.decoder.decoded r.Form = .ok data) (ha : data.ClientAssertion ≠ "")
+    (h : GenC14.ClientIDFromRequest now reqIssuer r p = .ok (id, authd)) :
+    ∃ c, VerifyJWTAssertion now (p.tokenOf data.ClientAssertion) (verifierAt now reqIssuer p) = .ok c ∧ id = c.iss := by
+  obtain ⟨_, _, hj, _⟩ := (clientIDFromRequest_assertion hd ha).1 h
+  exact c14_client_jwt_auth_identity hj
+
+/-- … and at revocation -/
+theorem c14_revocation_identity {now : Int} {reqIssuer : String} {r : AsrtHttpReq} {p : AsrtProvider} {data : AsrtForm}
+    {tok hint id : String} (hd : p.decoder.decoded r.Form = .ok data) (ht : data.ClientAssertionType = Const.ClientAssertionTypeJWTAssertion)
+    (h : GenC14.ParseTokenRevocationRequest now reqIssuer r p = .ok (tok, hint, id)) :
+    ∃ c, VerifyJWTAssertion now (p.tokenOf data.ClientAssertion) (verifierAt now reqIssuer p) = .ok c ∧ id = c.iss := by
+  obtain ⟨_, _, _, _, c, hc, hi, _⟩ := (parseTokenRevocationRequest_assertion hd ht).1 h
+  exact ⟨c, hc, hi.symm⟩
+
+/-! #### the monitor at the endpoints: the provider's settings with the default OR any configured subject check -/
+
+/-- client authentication by assertion (introspection, device grant, device authorization; the legacy server's resource
+    endpoints): the authenticated identity is the issuer of an assertion that is sound FOR THE ADDRESSED ISSUER -/
+theorem c14_client_jwt_auth_sound {now : Int} {reqIssuer : String} {ca : AsrtAssertionParams} {p : AsrtProvider} {id : String}
+    {check : Option (Claims → Go.R Unit)} (hs : ProviderSettings now (verifierAt now reqIssuer p) reqIssuer p.storage.keyRegistry check)
+    (h : GenC14.ClientJWTAuth now reqIssuer ca p = .ok id) :
+    endpointSound p.storage.keyRegistry { reqIssuer := reqIssuer, assertion := p.tokenOf ca.ClientAssertion, subjectCheck := admitsOf check } now
+      { accepted := true, identity := some id } = none := by
+  obtain ⟨_, c, hc, hi⟩ := clientJWTAuth_ok.1 h
+  rw [← hi]; exact endpoint_monitor_any hs hc
+
+/-- an assertion that is sound for the addressed issuer and whose issuer is registered for private_key_jwt: the monitor in full -/
+theorem clientAuth_monitor {now : Int} {reqIssuer : String} {reg : List (String × JWK)} {check : Option (Claims → Go.R Unit)}
+    {v : JWTProfileVerifier} {t : Token} {c : Claims} {cl : OPClient}
+    (hs : ProviderSettings now v reqIssuer reg check) (hc : VerifyJWTAssertion now t v = .ok c)
+    (hauth : cl.auth = Const.AuthMethodPrivateKeyJWT) :
+    endpointSound reg { reqIssuer := reqIssuer, assertion := t, clientAuth := true, registeredMethod := some cl.auth, subjectCheck := admitsOf check } now
+      { accepted := true, identity := some c.iss } = none := by
+  obtain ⟨c0, hm, hi, _, _, hso, hadm⟩ := endpoint_token_sound_any hs hc
+  cases check with
+  | none => simp [endpointSound, admitsOf, hm, hi, hauth] at hso ⊢; simp [hso]
+  | some f =>
+    have := hadm f rfl
+    simp [endpointSound, admitsOf, hm, hi, hauth, this] at hso ⊢; simp [hso, Except.toOption]
+
 /-- private_key_jwt at the token endpoint (both routers; on the legacy server also revocation and device authorization): the
     authenticated client is the registration stored under the assertion's issuer, it is registered for private_key_jwt, and the
-    assertion is sound for the addressed issuer -/
+    assertion is sound for the addressed issuer - with the default subject check and with EVERY configured one -/
 theorem c14_private_key_jwt_at_issuer {now : Int} {reqIssuer : String} {t : Token} {p : AsrtProvider} {cl : OPClient}
+    {check : Option (Claims → Go.R Unit)} (hs : ProviderSettings now (verifierAt now reqIssuer p) reqIssuer p.storage.keyRegistry check)
     (h : GenC14.AuthorizePrivateJWTKey now reqIssuer t p = .ok cl) :
     cl.auth = Const.AuthMethodPrivateKeyJWT ∧ p.storage.GetClientByClientID cl.id = .ok cl ∧
-    endpointSound p.storage.keyRegistry { reqIssuer := reqIssuer, assertion := t, clientAuth := true, registeredMethod := some cl.auth } now
+    endpointSound p.storage.keyRegistry
+      { reqIssuer := reqIssuer, assertion := t, clientAuth := true, registeredMethod := some cl.auth, subjectCheck := admitsOf check } now
       { accepted := true, identity := some cl.id } = none := by
   obtain ⟨c, hc, hcl, hauth⟩ := authorizePrivateJWTKey_ok.1 h
   have hid := getClient_id hcl
   refine ⟨hauth, by rw [hid]; exact hcl, ?_⟩
-  obtain ⟨c0, hm, hi0, _, _, hs⟩ := c14_endpoint_token_sound hc
-  simp [endpointSound, hm, hs, hid, hi0, hauth]
-
-/-- an assertion that is sound for the addressed issuer and whose issuer is registered for private_key_jwt: the monitor in full -/
-theorem clientAuth_monitor {now : Int} {reqIssuer : String} {p : AsrtProvider} {t : Token} {c : Claims} {cl : OPClient}
-    (hc : VerifyJWTAssertion now t (GenC14.ProviderJWTProfileVerifier now reqIssuer p).flat = .ok c)
-    (hauth : cl.auth = Const.AuthMethodPrivateKeyJWT) :
-    endpointSound p.storage.keyRegistry { reqIssuer := reqIssuer, assertion := t, clientAuth := true, registeredMethod := some cl.auth } now
-      { accepted := true, identity := some c.iss } = none := by
-  obtain ⟨c0, hm, hi0, _, _, hs⟩ := c14_endpoint_token_sound hc
-  simp [endpointSound, hm, hs, hi0, hauth]
+  rw [hid]; exact clientAuth_monitor hs hc hauth
 
 /-- C14 (full strength, Provider router: introspection, device authorization, device grant): when the request carries an
     assertion, `ClientIDFromRequest` reports a client only as AUTHENTICATED, only if it is registered for private_key_jwt, as
     exactly the assertion's issuer, on an assertion that is sound for the issuer the request is addressed to -/
 theorem c14_client_id_from_request_sound {now : Int} {reqIssuer : String} {r : AsrtHttpReq} {p : AsrtProvider} {data : AsrtForm}
-    {id : String} {authd : Bool} (hd : p.decoder.decoded r.Form = .ok data) (ha : data.ClientAssertion ≠ "")
+    {id : String} {authd : Bool} {check : Option (Claims → Go.R Unit)}
+    (hs : ProviderSettings now (verifierAt now reqIssuer p) reqIssuer p.storage.keyRegistry check)
+    (hd : p.decoder.decoded r.Form = .ok data) (ha : data.ClientAssertion ≠ "")
     (h : GenC14.ClientIDFromRequest now reqIssuer r p = .ok (id, authd)) :
     authd = true ∧ ∃ cl, p.storage.GetClientByClientID id = .ok cl ∧ cl.auth = Const.AuthMethodPrivateKeyJWT ∧
       endpointSound p.storage.keyRegistry
-        { reqIssuer := reqIssuer, assertion := p.tokenOf data.ClientAssertion, clientAuth := true, registeredMethod := some cl.auth }
+        { reqIssuer := reqIssuer, assertion := p.tokenOf data.ClientAssertion, clientAuth := true, registeredMethod := some cl.auth,
+          subjectCheck := admitsOf check }
         now { accepted := true, identity := some id } = none := by
   obtain ⟨_, hau, hj, hck⟩ := (clientIDFromRequest_assertion hd ha).1 h
   obtain ⟨cl, hcl, hauth⟩ := checkPrivateKeyJWTClient_ok.1 hck
   obtain ⟨_, c, hc, hi⟩ := clientJWTAuth_ok.1 hj
   refine ⟨hau, cl, hcl, hauth, ?_⟩
-  rw [← hi]; exact clientAuth_monitor hc hauth
+  rw [← hi]; exact clientAuth_monitor hs hc hauth
 
 /-- C14 (full strength, Provider router: revocation): the assertion branch of `ParseTokenRevocationRequest` -/
 theorem c14_revocation_request_sound {now : Int} {reqIssuer : String} {r : AsrtHttpReq} {p : AsrtProvider} {data : AsrtForm}
-    {tok hint id : String} (hd : p.decoder.decoded r.Form = .ok data) (ht : data.ClientAssertionType = Const.ClientAssertionTypeJWTAssertion)
+    {tok hint id : String} {check : Option (Claims → Go.R Unit)}
+    (hs : ProviderSettings now (verifierAt now reqIssuer p) reqIssuer p.storage.keyRegistry check)
+    (hd : p.decoder.decoded r.Form = .ok data) (ht : data.ClientAssertionType = Const.ClientAssertionTypeJWTAssertion)
     (h : GenC14.ParseTokenRevocationRequest now reqIssuer r p = .ok (tok, hint, id)) :
     p.pkjwtSupported = true ∧ ∃ cl, p.storage.GetClientByClientID id = .ok cl ∧ cl.auth = Const.AuthMethodPrivateKeyJWT ∧
       endpointSound p.storage.keyRegistry
-        { reqIssuer := reqIssuer, assertion := p.tokenOf data.ClientAssertion, clientAuth := true, registeredMethod := some cl.auth }
+        { reqIssuer := reqIssuer, assertion := p.tokenOf data.ClientAssertion, clientAuth := true, registeredMethod := some cl.auth,
+          subjectCheck := admitsOf check }
         now { accepted := true, identity := some id } = none := by
   obtain ⟨_, hp, _, _, c, hc, hi, hck⟩ := (parseTokenRevocationRequest_assertion hd ht).1 h
   obtain ⟨cl, hcl, hauth⟩ := checkPrivateKeyJWTClient_ok.1 hck
   refine ⟨hp, cl, hcl, hauth, ?_⟩
-  rw [← hi]; exact clientAuth_monitor hc hauth
+  rw [← hi]; exact clientAuth_monitor hs hc hauth
 
 /-- the storage's scope policy refuses `refused` and invents nothing -/
 def PolicyRefuses (s : AsrtStorage) (refused : List String) : Prop :=
   ∀ id req granted, s.scopePolicy id req = .ok granted → ∀ x ∈ granted, x ∈ req ∧ x ∉ refused
 
-theorem bearer_monitor {now : Int} {reqIssuer : String} {p : AsrtProvider} {t : Token} {c : Claims} {req refused granted : List String}
-    (hc : VerifyJWTAssertion now t (GenC14.ProviderJWTProfileVerifier now reqIssuer p).flat = .ok c)
-    (hpol : PolicyRefuses p.storage refused) (hg : p.storage.scopePolicy c.iss req = .ok granted) :
-    endpointSound p.storage.keyRegistry { reqIssuer := reqIssuer, assertion := t, bearerGrant := true, requestedScopes := req, refusedScopes := refused }
+/-- (deep 4) the jwt-bearer grant under ANY subject check: the identity the grant acts for - the id the storage's scope policy is
+    asked about - is the assertion's ISSUER; the token is for the subject the configured check admitted -/
+theorem bearer_monitor_any {now : Int} {reqIssuer : String} {reg : List (String × JWK)} {check : Option (Claims → Go.R Unit)}
+    {v : JWTProfileVerifier} {s : AsrtStorage} {t : Token} {c : Claims} {req refused granted : List String}
+    (hs : ProviderSettings now v reqIssuer reg check) (hc : VerifyJWTAssertion now t v = .ok c)
+    (hpol : PolicyRefuses s refused) (hg : s.scopePolicy c.iss req = .ok granted) :
+    endpointSound reg
+      { reqIssuer := reqIssuer, assertion := t, bearerGrant := true, requestedScopes := req, refusedScopes := refused, subjectCheck := admitsOf check }
+      now { accepted := true, identity := some c.iss, scopes := some granted } = none := by
+  obtain ⟨c0, hm, hi, _, _, hso, hadm⟩ := endpoint_token_sound_any hs hc
+  have hall : ∀ x ∈ granted, x ∈ req ∧ x ∉ refused := hpol _ _ _ hg
+  cases check with
+  | none => simp [endpointSound, admitsOf, hm, hi] at hso ⊢; simp [hso]; exact hall
+  | some f =>
+    have := hadm f rfl
+    simp [endpointSound, admitsOf, hm, hi, this] at hso ⊢; simp [hso, Except.toOption]; exact hall
+
+/-- default subject check: the subject the token is for IS the issuer -/
+theorem bearer_monitor {now : Int} {reqIssuer : String} {reg : List (String × JWK)} {v : JWTProfileVerifier} {s : AsrtStorage} {t : Token} {c : Claims}
+    {req refused granted : List String}
+    (hs : ProviderSettings now v reqIssuer reg none) (hc : VerifyJWTAssertion now t v = .ok c)
+    (hpol : PolicyRefuses s refused) (hg : s.scopePolicy c.iss req = .ok granted) :
+    endpointSound reg { reqIssuer := reqIssuer, assertion := t, bearerGrant := true, requestedScopes := req, refusedScopes := refused }
       now { accepted := true, identity := some c.sub, scopes := some granted } = none := by
-  obtain ⟨c0, hm, hi, hsub, _, hs⟩ := c14_endpoint_token_sound hc
+  obtain ⟨c0, hm, hi, hsub, _, hso, _⟩ := endpoint_token_sound_any hs hc
   have hsubiss : c0.sub = c0.iss := by
     -- the last clause of `assertionOK` (default subject check)
-    unfold assertionOK at hs
-    split at hs; · simp at hs
-    have hf := hs
+    simp only [Option.isNone_none] at hso
+    unfold assertionOK at hso
+    split at hso; · simp at hso
+    have hf := hso
     simp only [Option.map_eq_none_iff, List.find?_eq_none] at hf
     have := hf ("sub-is-iss", !true || c0.sub == c0.iss) (by simp [claimClauses])
     simpa using this
-  have hall : ∀ x ∈ granted, x ∈ req ∧ x ∉ refused := hpol _ _ _ hg
-  have hsc : (granted.any fun s => !req.contains s || refused.contains s) = false := by
-    rw [List.any_eq_false]
-    intro x hx
-    obtain ⟨h1, h2⟩ := hall x hx
-    simp [h1, h2]
-  simp [endpointSound, hm, hs, ← hsub, hsubiss]
-  exact hall
+  have := bearer_monitor_any hs hc hpol hg
+  rw [← hsub, hsubiss, hi]
+  simpa [admitsOf] using this
 
 /-- the jwt-bearer grant of the Provider router: a token is granted only on an assertion that is sound for the addressed issuer,
     to its subject (= its issuer), with the scopes the storage's policy admits for THAT issuer -/
 theorem c14_bearer_grant_sound {now : Int} {reqIssuer : String} {rq : Go.R AsrtGrantRequest} {p : AsrtProvider} {resp : AsrtTokenResponse}
-    {refused : List String} (hpol : PolicyRefuses p.storage refused)
+    {refused : List String} (hstock : p.customVerifier = none) (hpol : PolicyRefuses p.storage refused)
     (h : GenC14.JWTProfile now reqIssuer rq p = .json resp) :
     ∃ g, rq = .ok g ∧
       endpointSound p.storage.keyRegistry
@@ -365,32 +584,78 @@ theorem c14_bearer_grant_sound {now : Int} {reqIssuer : String} {rq : Go.R AsrtG
         now { accepted := true, identity := some resp.subject, scopes := some resp.scopes } = none := by
   obtain ⟨g, c, granted, hrq, hc, hgr, hresp⟩ := jwtProfile_json.1 h
   subst hresp
-  exact ⟨g, hrq, bearer_monitor hc hpol hgr⟩
+  exact ⟨g, hrq, bearer_monitor (settings_stock now reqIssuer p hstock) hc hpol hgr⟩
+
+/-- (deep 4) … and under EVERY configured subject check: the scopes are the ISSUER's, the token is for the admitted subject -/
+theorem c14_bearer_grant_any_check {now : Int} {reqIssuer : String} {rq : Go.R AsrtGrantRequest} {p : AsrtProvider} {resp : AsrtTokenResponse}
+    {refused : List String} {check : Option (Claims → Go.R Unit)}
+    (hs : ProviderSettings now (verifierAt now reqIssuer p) reqIssuer p.storage.keyRegistry check) (hpol : PolicyRefuses p.storage refused)
+    (h : GenC14.JWTProfile now reqIssuer rq p = .json resp) :
+    ∃ g c, rq = .ok g ∧ VerifyJWTAssertion now (p.tokenOf g.Assertion) (verifierAt now reqIssuer p) = .ok c ∧ resp.subject = c.sub ∧
+      endpointSound p.storage.keyRegistry
+        { reqIssuer := reqIssuer, assertion := p.tokenOf g.Assertion, bearerGrant := true, requestedScopes := g.Scope, refusedScopes := refused,
+          subjectCheck := admitsOf check }
+        now { accepted := true, identity := some c.iss, scopes := some resp.scopes } = none := by
+  obtain ⟨g, c, granted, hrq, hc, hgr, hresp⟩ := jwtProfile_json.1 h
+  subst hresp
+  exact ⟨g, c, hrq, hc, rfl, bearer_monitor_any hs hc hpol hgr⟩
 
 /-- the same for the legacy server -/
 theorem c14_legacy_bearer_grant_sound {now : Int} {reqIssuer : String} {s : AsrtLegacyServer} {r : AsrtRequest AsrtGrantRequest}
-    {resp : AsrtTokenResponse} {refused : List String} (hpol : PolicyRefuses s.provider.storage refused)
+    {resp : AsrtTokenResponse} {refused : List String} (hstock : s.provider.customVerifier = none) (hpol : PolicyRefuses s.provider.storage refused)
     (h : GenC14.LegacyJWTProfile now reqIssuer s r = .ok resp) :
     endpointSound s.provider.storage.keyRegistry
       { reqIssuer := reqIssuer, assertion := s.provider.tokenOf r.Data.Assertion, bearerGrant := true, requestedScopes := r.Data.Scope, refusedScopes := refused }
       now { accepted := true, identity := some resp.subject, scopes := some resp.scopes } = none := by
   obtain ⟨c, granted, hc, hgr, hresp⟩ := legacyJWTProfile_ok.1 h
   subst hresp
-  exact bearer_monitor hc hpol hgr
+  exact bearer_monitor (settings_stock now reqIssuer s.provider hstock) hc hpol hgr
+
+theorem c14_legacy_bearer_grant_any_check {now : Int} {reqIssuer : String} {s : AsrtLegacyServer} {r : AsrtRequest AsrtGrantRequest}
+    {resp : AsrtTokenResponse} {refused : List String} {check : Option (Claims → Go.R Unit)}
+    (hs : ProviderSettings now (verifierAt now reqIssuer s.provider) reqIssuer s.provider.storage.keyRegistry check)
+    (hpol : PolicyRefuses s.provider.storage refused) (h : GenC14.LegacyJWTProfile now reqIssuer s r = .ok resp) :
+    ∃ c, VerifyJWTAssertion now (s.provider.tokenOf r.Data.Assertion) (verifierAt now reqIssuer s.provider) = .ok c ∧ resp.subject = c.sub ∧
+      endpointSound s.provider.storage.keyRegistry
+        { reqIssuer := reqIssuer, assertion := s.provider.tokenOf r.Data.Assertion, bearerGrant := true, requestedScopes := r.Data.Scope,
+          refusedScopes := refused, subjectCheck := admitsOf check }
+        now { accepted := true, identity := some c.iss, scopes := some resp.scopes } = none := by
+  obtain ⟨c, granted, hc, hgr, hresp⟩ := legacyJWTProfile_ok.1 h
+  subst hresp
+  exact ⟨c, hc, rfl, bearer_monitor_any hs hc hpol hgr⟩
 
 /-- C14 (full strength, legacy server: introspection): with an assertion, the caller is authenticated through `ClientJWTAuth`
     and must be registered for private_key_jwt -/
 theorem c14_legacy_resource_client_sound {now : Int} {reqIssuer : String} {s : AsrtLegacyServer} {cc : AsrtClientCredentials} {id : String}
+    {check : Option (Claims → Go.R Unit)}
+    (hs : ProviderSettings now (verifierAt now reqIssuer s.provider) reqIssuer s.provider.storage.keyRegistry check)
     (ha : cc.ClientAssertion ≠ "") (h : GenC14.LegacyAuthenticateResourceClient now reqIssuer s cc = .ok id) :
     ∃ cl, s.provider.storage.GetClientByClientID id = .ok cl ∧ cl.auth = Const.AuthMethodPrivateKeyJWT ∧
       endpointSound s.provider.storage.keyRegistry
-        { reqIssuer := reqIssuer, assertion := s.provider.tokenOf cc.ClientAssertion, clientAuth := true, registeredMethod := some cl.auth }
+        { reqIssuer := reqIssuer, assertion := s.provider.tokenOf cc.ClientAssertion, clientAuth := true, registeredMethod := some cl.auth,
+          subjectCheck := admitsOf check }
         now { accepted := true, identity := some id } = none := by
   obtain ⟨hj, hck⟩ := (legacyAuthenticateResourceClient_assertion ha).1 h
   obtain ⟨cl, hcl, hauth⟩ := checkPrivateKeyJWTClient_ok.1 hck
   obtain ⟨_, c, hc, hi⟩ := clientJWTAuth_ok.1 hj
   refine ⟨cl, hcl, hauth, ?_⟩
-  rw [← hi]; exact clientAuth_monitor hc hauth
+  rw [← hi]; exact clientAuth_monitor hs hc hauth
+
+/-- C14 (deep 4) in one statement, for the configuration the seeded change needs: an OP whose verifier is built with
+    `op.SubjectCheck(f)` - for EVERY `f`, also one that admits every subject - authenticates at the token endpoint exactly the client
+    named as ISSUER, whose stored key verified the assertion; the executable monitor (with the configured check) holds -/
+theorem c14_private_key_client_subject_check {now : Int} {reqIssuer : String} {t : Token} {p : AsrtProvider} {cl : OPClient} (f : Claims → Go.R Unit)
+    (hcfg : p.customVerifier = some fun iss => GenC14.NewJWTProfileVerifier now p.storage iss (3600 * Go.second) Go.second [GenC14.SubjectCheck now f])
+    (h : GenC14.AuthorizePrivateJWTKey now reqIssuer t p = .ok cl) :
+    (∃ c0, t.middle.bind (·.claims) = some c0 ∧ cl.id = c0.iss ∧ f c0 = .ok ()) ∧
+    endpointSound p.storage.keyRegistry
+      { reqIssuer := reqIssuer, assertion := t, clientAuth := true, registeredMethod := some cl.auth, subjectCheck := admitsOf (some f) } now
+      { accepted := true, identity := some cl.id } = none := by
+  have hs := settings_subject_check now reqIssuer p f hcfg
+  refine ⟨?_, (c14_private_key_jwt_at_issuer hs h).2.2⟩
+  obtain ⟨c, hc, hcl, _⟩ := authorizePrivateJWTKey_ok.1 h
+  obtain ⟨c0, hm, hi, _, _, _, hadm⟩ := endpoint_token_sound_any hs hc
+  exact ⟨c0, hm, by rw [getClient_id hcl, hi], hadm f rfl⟩
 
 /-! ### the hand-written getter of Model/OP.lean -/
 
@@ -445,5 +710,48 @@ example : endpointSound Demo.prov.storage.keyRegistry { reqIssuer := "https://b.
 example : (GenC14.AuthorizePrivateJWTKey Demo.now "https://a.example" Demo.token Demo.prov).toOption.map (·.id) = some "client-A" := by decide
 example : GenC14.JWTProfile Demo.now "https://a.example" (.ok { Assertion := "x", Scope := ["openid"] }) Demo.prov
     = .json { subject := "client-A", audience := ["https://a.example"], scopes := ["openid"] } := by decide
+
+/-! ### non-vacuity (deep 4): a verifier whose subject check admits EVERY subject; registered client `evil` signs
+    {iss: evil, sub: victim} with its own key -/
+
+namespace Demo
+def evilKey : JWK := { KeyID := "e1", Use := "sig", kty := .rsa, keyNo := 2 }
+def evilClaims : Claims := { iss := "evil", sub := "victim", aud := ["https://a.example"], iat := 1000, exp := 1300 }
+def evilPayload : Payload := { bytes := 9, claims := some evilClaims }
+def evilSig : JSig :=
+  { Header := { Algorithm := "RS256", KeyID := "e1" }, signer := some 2, signedBytes := 9, signedHdr := { Algorithm := "RS256", KeyID := "e1" },
+    signedAlg := "RS256" }
+def evilToken : Token := { segs := 3, middle := some evilPayload, jws := some { Signatures := [evilSig], payload := evilPayload } }
+def evilStorage : AsrtStorage :=
+  { base := { clients := [{ id := "victim", auth := Const.AuthMethodPrivateKeyJWT, keys := [key] },
+                           { id := "evil", auth := Const.AuthMethodPrivateKeyJWT, keys := [evilKey] }] } }
+/-- an OP whose verifier is built with `op.SubjectCheck(func(*oidc.JWTTokenRequest) error { return nil })` -/
+def lax : AsrtProvider :=
+  { storage := evilStorage, tokenOf := fun _ => evilToken,
+    customVerifier := some fun iss => GenC14.NewJWTProfileVerifier 0 evilStorage iss (3600 * Go.second) Go.second [GenC14.SubjectCheck 0 fun _ => .ok ()] }
+/-- the stock provider with the same storage -/
+def strict : AsrtProvider := { storage := evilStorage, tokenOf := fun _ => evilToken }
+end Demo
+
+/-- the lax verifier accepts the assertion; every consumer goes on as `evil` - the ISSUER, whose stored key verified it - not as `victim` -/
+example : (GenC14.AuthorizePrivateJWTKey Demo.now "https://a.example" Demo.evilToken Demo.lax).toOption.map (·.id) = some "evil" := by decide
+example : (GenC14.ClientJWTAuth Demo.now "https://a.example" { ClientAssertion := "x" } Demo.lax).toOption = some "evil" := by decide
+example : (GenC14.ClientIDFromRequest Demo.now "https://a.example" { Form := { ClientAssertion := "x" } } Demo.lax).toOption = some ("evil", true) := by decide
+/-- the jwt-bearer grant on the same verifier: a token for the admitted subject -/
+example : GenC14.JWTProfile Demo.now "https://a.example" (.ok { Assertion := "x", Scope := ["openid"] }) Demo.lax
+    = .json { subject := "victim", audience := ["https://a.example"], scopes := ["openid"] } := by decide
+/-- the stock provider (default check) refuses it -/
+example : (GenC14.ClientJWTAuth Demo.now "https://a.example" { ClientAssertion := "x" } Demo.strict).toOption = none := by decide
+/-- the monitor: going on as the issuer is fine under the lax check, going on as the SUBJECT is the violation (what seeded C14-N does);
+    under the default check the acceptance itself is one -/
+example : endpointSound Demo.evilStorage.keyRegistry { reqIssuer := "https://a.example", assertion := Demo.evilToken, subjectCheck := some fun _ => true }
+    Demo.now { accepted := true, identity := some "evil" } = none := by decide
+example : endpointSound Demo.evilStorage.keyRegistry { reqIssuer := "https://a.example", assertion := Demo.evilToken, subjectCheck := some fun _ => true }
+    Demo.now { accepted := true, identity := some "victim" } = some "identity-is-not-the-issuer" := by decide
+example : endpointSound Demo.evilStorage.keyRegistry { reqIssuer := "https://a.example", assertion := Demo.evilToken }
+    Demo.now { accepted := true, identity := some "evil" } = some "sub-is-iss" := by decide
+example : endpointSound Demo.evilStorage.keyRegistry
+    { reqIssuer := "https://a.example", assertion := Demo.evilToken, subjectCheck := some fun c => c.sub == c.iss }
+    Demo.now { accepted := true, identity := some "evil" } = some "subject-refused-by-the-configured-check" := by decide
 
 end C14
